@@ -114,20 +114,25 @@ def prior_run(
     n = len(deps)
     codes = [c0, c1, c2][:n]
     prior = [p0, p1, p2][:n]
-    # the earlier run can only contain a job together with its dependencies
-    for i in range(n):
-        if prior[i]:
-            for j in deps[i]:
-                if not prior[j]:
-                    return True
+    if SHARD.get("prior") is not None:
+        prior = [bool(b) for b in SHARD["prior"]][:n]  # enumerated by the shard
+    # the earlier run executes the whole plan; the job directories of the
+    # jobs that are not in `prior` are then removed (cleaned workspace), so
+    # that any subset of success markers can pre-exist - including a job
+    # whose marker exists while the marker of its dependency does not
     first = Scenario(shape, [0] * n)
-    first.start(name=SHARD.get("first_name", "x"), program=[("submit", i) for i in range(n) if prior[i]] + [("wait",)])
+    first.start(name=SHARD.get("first_name", "x"), program=[("submit", i) for i in range(n)] + [("wait",)])
     first.run([], 0)
     first.finish()
     w = first.w
+    import shutil
+
     for i in range(n):
-        if prior[i] and (first.jobs[i] is None or first.jobs[i].state != SB.JobState.DONE):
+        if first.jobs[i] is None or first.jobs[i].state != SB.JobState.DONE:
             raise RuntimeError("harness: the earlier run did not complete")
+        if not prior[i]:
+            with rt._notrace():
+                shutil.rmtree(first.jobs[i].path, ignore_errors=True)
     sc = Scenario(shape, codes, rev=rev)
     sc.start(world=w, name="x")
     sc.run([s0, s1, s2, s3, s4, s5, s6, s7], K, prefix=SHARD.get("prefix") or ())
@@ -145,8 +150,14 @@ def prior_run(
                 rt.note(f"FAIL: job {i} with a success marker ends {job.state if job else None}")
                 ok = False
         else:
-            # like C06/C07: its own code decides, unless an ancestor that really ran failed
-            anc_failed = any((not prior[j]) and codes[j] != 0 for j in schedlib.transitive_deps(deps, i))
+            # like C06/C07: its own code decides, unless a dependency failed; a
+            # dependency whose marker pre-exists is done, whatever lies behind it
+            def failed(j):
+                if prior[j]:
+                    return False
+                return codes[j] != 0 or any(failed(k) for k in deps[j])
+
+            anc_failed = any(failed(j) for j in deps[i])
             expect = SB.JobState.DONE if (not anc_failed and codes[i] == 0) else SB.JobState.ERROR
             if job is None or job._future is None or not job._future.task.done() or job.state != expect:
                 rt.note(f"FAIL: job {i} ends {job.state if job else None}, expected {expect}")
@@ -174,8 +185,13 @@ def conditions(tier):
             conds.extend(schedlib.with_prefixes(c, 2) if sh == "indep2" else [c])
     conds.append({"name": "duplicates/chain2/two", "func": "duplicates", "shard": {"shape": "chain2", "K": K, "positions": [1, 3], "ndup": 2}, "timeout": tmo})
     for sh in ("one", "chain2", "chain3", "join3") if tier == "quick" else ("one", "chain2", "chain3", "fork3", "join3"):
-        c = {"name": f"prior/{sh}", "func": "prior_run", "shard": {"shape": sh, "K": K}, "timeout": tmo}
-        conds.extend(schedlib.with_prefixes(c, 2) if sh in ("fork3", "join3") else [c])
+        n = len(schedlib.SHAPES[sh])
+        if n < 3:
+            conds.append({"name": f"prior/{sh}", "func": "prior_run", "shard": {"shape": sh, "K": K}, "timeout": tmo})
+            continue
+        for m in range(1, 2 ** n):
+            pr = [(m >> i) & 1 for i in range(n)]
+            conds.append({"name": f"prior/{sh}/m{''.join(map(str, pr))}", "func": "prior_run", "shard": {"shape": sh, "K": K, "prior": pr}, "timeout": tmo})
     conds.append({"name": "overlap/two", "func": "overlap", "shard": {"procs": 2}, "timeout": tmo})
     conds.append({"name": "overlap/three", "func": "overlap", "shard": {"procs": 3}, "timeout": tmo})
     conds.append({"name": "prior/chain2-other-experiment", "func": "prior_run", "shard": {"shape": "chain2", "K": K, "first_name": "earlier"}, "timeout": tmo})
